@@ -189,7 +189,12 @@ func replacements(g *goodGen, full bool) []replacement {
 				return g.pool[i]
 			}
 		}
-		panic("args: no pool value of type " + n)
+		return nil
+	}
+	// the first two composites of the world's pool are retype targets
+	comp := func(i int) replacement {
+		id := g.w.poolIDs[i]
+		return replacement{"Struct:" + id, jsonOf(byName(id))}
 	}
 	out := []replacement{
 		{"Int", jsonOf(cadence.NewInt(5))},
@@ -200,8 +205,8 @@ func replacements(g *goodGen, full bool) []replacement {
 		{"Array[]", jsonOf(cadence.NewArray([]cadence.Value{}))},
 		{"Array[String]", jsonOf(cadence.NewArray([]cadence.Value{str("e")}))},
 		{"Dict{String:Bool}", jsonOf(cadence.NewDictionary([]cadence.KeyValuePair{{Key: str("k"), Value: cadence.NewBool(true)}}))},
-		{"Struct:C.S2", jsonOf(byName("C.S2"))},
-		{"Struct:C.S3", jsonOf(byName("C.S3"))},
+		comp(0),
+		comp(2),
 		{"Resource:C.R", rawNode(`{"type":"Resource","value":{"id":"A.0000000000000001.C.R","fields":[{"name":"uuid","value":{"type":"UInt64","value":"1"}},{"name":"x","value":{"type":"Int","value":"1"}}]}}`)},
 		{"Function", rawNode(`{"type":"Function","value":{"functionType":{"kind":"Function","typeID":"fun():Void","typeParameters":[],"parameters":[],"purity":"","return":{"kind":"Void"}}}}`)},
 		{"Type<Int>", jsonOf(cadence.NewTypeValue(cadence.IntType))},
@@ -214,7 +219,7 @@ func replacements(g *goodGen, full bool) []replacement {
 			replacement{"Address", jsonOf(a1)},
 			replacement{"Character", jsonOf(must(cadence.NewCharacter("x")))},
 			replacement{"Enum:C.En", jsonOf(byName("C.En"))},
-			replacement{"Struct:C.S", jsonOf(byName("C.S"))},
+			comp(1),
 			replacement{"Event:D.Ev", rawNode(`{"type":"Event","value":{"id":"A.0000000000000001.D.Ev","fields":[{"name":"a","value":{"type":"Int","value":"1"}}]}}`)},
 			replacement{"Contract:C", rawNode(`{"type":"Contract","value":{"id":"A.0000000000000001.C","fields":[]}}`)},
 			replacement{"Range<Int>", jsonOf(cadence.NewInclusiveRange(cadence.NewInt(1), cadence.NewInt(2), cadence.NewInt(1)))},
